@@ -160,7 +160,9 @@ def judge_orth(ctx, Y, k, use_stab, res, rng, nested=False):
         mx = max(float(np.max(np.abs(G))) for G in Z)
         okm = mx <= 2.0 ** 10
         pm = float(np.max(np.abs(Z[k])))
-        if nrm >= 1e-90:
+        # (a tensor that cancels to rounding level of its cores - norm below
+        #  1e4 d eps prod||G_k|| - may legitimately come out as exactly zero)
+        if nrm >= 1e-90 and nrm > 1e4 * d * EPS * P:
             okm = okm and pm >= 2.0 ** -10
         # known finding (mechanism, see KNOWN_FINDINGS.txt): a core of the
         # argument lies wholly at or below core_stab's threshold 1e-100, the
